@@ -14,11 +14,18 @@ can then glue two lines of the Normalize output together (recorded in DESIGN
 §6 C11 as outside the proved domain).  That re-matching the output gives the
 same result is NOT a theorem: it fails for the two recorded findings
 (known_findings.json C11/*), and is checked on the implementation by the oracle.
-Property theorems only; helper lemmas live in LC/Proofs/Render.lean.
+
+Hyphenated inputs (second part of the file): the output loop writes one newline per line
+passed (`List.replicate (t.line - prev) nl`, also before the first token), so the line
+correspondence needs only that token lines never decrease (`Mono`) and that the token after an
+EOL token is on a strictly later line (`EolLastLt`, LC/Proofs/Render.lean); both hold on EVERY
+input (`tokenize_mono`, `tokenize_eol_lastlt`), hence `normalize_lines_all` without `NoDefer`.
+Property theorems only; helper lemmas live in LC/Proofs/Render.lean, LC/Proofs/RenderAll.lean.
 -/
 import LC.Model.V2Tok
 import LC.Spec.TokSpec
 import LC.Proofs.Render
+import LC.Proofs.RenderAll
 
 namespace LC.V2Tok
 open LC.Utf8
@@ -27,9 +34,11 @@ open LC.Utf8
 
 -- ADJUSTED: two hypotheses added; without them the statement is false for the model
 -- (checked by evaluation, `k ≥ 1`, all other hypotheses hold):
---  * `h1` (the first token is on line 1): `render` never emits a newline before the first
---    token, but `StepOne 1` lets the first token be on line 2.
---    toks = [⟨[97],2⟩,⟨[98],2⟩]: output "a\nb"; k = 1 gives "a" ≠ "" and k = 2 gives "b" ≠ "a b".
+--  * `h1` (the first token is on line 1): needed for the original `render`, which never emitted a
+--    newline before the first token while `StepOne 1` lets the first token be on line 2
+--    (toks = [⟨[97],2⟩,⟨[98],2⟩] gave "a\nb").  `render` as repaired writes the newlines up to the
+--    first token's line, so `h1` is no longer used (see `render_lines_mono`); it is kept so that the
+--    statement is unchanged.
 --  * `he` (`EolLast`: the token after an EOL token is on the next line): the loop emits a blank
 --    before a word whenever the previous token is on the same line, also when that token is an
 --    EOL token, which emits nothing.
@@ -72,6 +81,41 @@ theorem normalize_lines (E : Env) (hE : EnvWF E) (rs : List Rune) (hn : NoDefer 
       joinBlank (wordsOnLine (tokenizeRunes E false rs).toks k) :=
   render_lines _ h2 (tokenize_stepOne E rs hn) (tokenize_first_line E rs hn)
     (tokenize_eol_last E hE rs hn) (tokenize_words E hE rs) k hk
+
+/-! ### every input, hyphenated line breaks included -/
+
+/-- `render_lines` when token lines may advance by any amount: lines start at 1 or later and never
+decrease (`Mono 1`), and the token after an EOL token is on a strictly later line (`EolLastLt`).
+No hypothesis on the first token's line: `render` writes the newlines up to it. -/
+theorem render_lines_mono (toks : List Tok) (h2 : 2 ≤ toks.length) (hs : Mono 1 toks)
+    (he : EolLastLt toks)
+    (hw : ∀ t ∈ toks, t.word = [nl] ∨ (nl ∉ t.word ∧ t.word ≠ []))
+    (k : Nat) (hk : 1 ≤ k) :
+    (splitLines (render toks)).getD (k - 1) [] = joinBlank (wordsOnLine toks k) :=
+  render_lines_mono' toks h2 hs he hw k hk
+
+/-- On every input the tokenizer's token lines are at least 1 and never decrease. -/
+theorem tokenize_mono (E : Env) (normalize : Bool) (rs : List Rune) :
+    Mono 1 (tokenizeRunes E normalize rs).toks :=
+  tokenize_mono' E normalize rs
+
+/-- On every input, the token after an EOL token is on a strictly later line. -/
+theorem tokenize_eol_lastlt (E : Env) (hE : EnvWF E) (rs : List Rune) :
+    EolLastLt (tokenizeRunes E false rs).toks :=
+  tokenize_eol_lastlt' hE rs
+
+/-- `normalize_lines` without `NoDefer`: for EVERY input, line k of the Normalize output holds
+exactly the words Match attributes to line k. -/
+theorem normalize_lines_all (E : Env) (hE : EnvWF E) (rs : List Rune)
+    (h2 : 2 ≤ (tokenizeRunes E false rs).toks.length) (k : Nat) (hk : 1 ≤ k) :
+    (splitLines (render (tokenizeRunes E false rs).toks)).getD (k - 1) [] =
+      joinBlank (wordsOnLine (tokenizeRunes E false rs).toks k) :=
+  render_lines_mono _ h2 (tokenize_mono E false rs) (tokenize_eol_lastlt E hE rs)
+    (tokenize_words E hE rs) k hk
+
+/-- the input that broke the original output loop (`(-\n) x y`: no token on line 1, both words
+on line 2): two tokens on line 2 are written on output line 2 -/
+example : render [⟨[120], 2⟩, ⟨[121], 2⟩] = [nl, 120, 32, 121] := by decide
 
 /-- The one- and zero-token cases of Normalize. -/
 theorem render_small (t : Tok) : render [] = [] ∧ render [t] = t.word := by
